@@ -1,4 +1,4 @@
-import SslModel.Lemmas.Ty
+import SslModel.Lemmas.TyTrans
 /-!
 # C10 — the subtype relation (`Type::matches`) obeys its laws
 
@@ -6,10 +6,11 @@ Statements are about `Ssl.Ty.sub`, the hand model of `Type::matches` (arms in so
 (`==` with set / map semantics for unions / structs) — for **all** types, or all well-formed types
 (`wf`: unions have ≥ 2 pairwise different members none of which is a union, `any` or `!`; struct
 keys are distinct — exactly what `from_str`, `|` and the checker can build).
-Proved here: reflexivity, least / greatest element, the variance equations of every constructor,
-invariance of `mut`, the two union laws.  Transitivity, the join / meet laws and soundness for values
-are not yet proved; they are exercised on the implementation by the law oracle of the `type` stream
-(tested, not proved).
+Proved here: reflexivity and **transitivity** (`matches_trans`, `eqv_trans`; by induction on the
+total size of the three types), least / greatest element, the variance equations of every constructor,
+invariance of `mut`, the two union laws, and that `matches` respects `==` on both sides.  Soundness for
+first-order values is `C01.matches_sound_partial`.  The join / meet (`concat` / `conjoin`) laws are not
+yet proved; they are exercised on the implementation by the law oracle of the `type` stream.
 -/
 namespace Ssl.C10
 open Ssl Ssl.Ty
@@ -94,6 +95,25 @@ theorem union_upper (ms : List Ty) (m : Ty) (hw : wf (.multi ms) = true) (hm : m
 theorem below_union (a : Ty) (ms : List Ty) (h1 : isMulti a = false) (h2 : isNever a = false) :
     sub a (.multi ms) = ms.any (fun m => sub a m) := by
   rw [sub_multi_right a ms h1 h2, anyMatch_eq]
+
+/-- **`matches` is transitive** (all well-formed types) -/
+theorem matches_trans (a b c : Ty) (wa : wf a = true) (wb : wf b = true) (wc : wf c = true)
+    (h1 : sub a b = true) (h2 : sub b c = true) : sub a c = true :=
+  Ty.sub_trans a b c wa wb wc h1 h2
+
+/-- `==` is transitive (all types) -/
+theorem eqv_trans (a b c : Ty) (h1 : eqv a b = true) (h2 : eqv b c = true) : eqv a c = true :=
+  Ty.eqv_trans a b c h1 h2
+
+/-- between non-union types (left not `!`, right not `any`) only types built by the same constructor match -/
+theorem matches_same_constructor {a b : Ty} (ha1 : isMulti a = false) (ha2 : isNever a = false)
+    (hb1 : isMulti b = false) (hb2 : b ≠ .any) (h : sub a b = true) : head a = head b :=
+  Ty.sub_head ha1 ha2 hb1 hb2 h
+
+/-- a chain through a union: below a member, hence below everything the union is below -/
+example : sub (.arr .int) (.multi [.arr (.multi [.int, .str]), .str]) = true ∧
+    sub (.multi [.arr (.multi [.int, .str]), .str]) (.multi [.str, .arr .any]) = true := by
+  constructor <;> simp [sub, allMatch, anyMatch, eqv]
 
 /-! ## non-vacuity: a nested well-formed type meeting the hypotheses -/
 def sample : Ty :=
